@@ -134,33 +134,55 @@ def run(prog: Program, res: Result, tier: str) -> None:
     call, k = kcs[0]
     op.check_roles(res, "R3", lp, call, k, {"array": "data", "nchans": "nchans", "nsamps": "count"})
     b = prog.bind_args(call, k)
-    src = norm(f.node)
-    ok = norm(b.get("mask")) == "mask" and "mask = np.array(chan_mask).astype('bool')" in src
+    from ..normalform import argument
+    km = prog.bind_args(call, k)
+    mask_x = canon(op.flow.expand(km["mask"], op.cfg.node_for(call))) if "mask" in km else None
+    ok = mask_x in (canon("np.array(chan_mask).astype('bool')"), canon("np.array(chan_mask).astype(bool)"), canon("np.asarray(chan_mask).astype(bool)"),
+                    canon("np.asarray(chan_mask, dtype=bool)"), canon("np.array(chan_mask, dtype=bool)"))
     (res.ok if ok else res.bad)("R3", f, call, "the kernel receives the caller's channel mask as booleans" if ok else
-                                "the mask given to the kernel is not np.array(chan_mask).astype(bool)", key="acm:mask")
-    ok = norm(b.get("maskvalue")) == "mask_value" and "mask_value = np.float32(mask_value).astype(self.header.dtype)" in src
+                                f"the mask given to the kernel is `{mask_x}`, not np.array(chan_mask).astype(bool)", key="acm:mask")
+    val_x = canon(op.flow.expand(km["maskvalue"], op.cfg.node_for(call))) if "maskvalue" in km else None
+    import re as _re0
+    ok = val_x is not None and _re0.sub(r"@\d+", "", val_x) == canon("np.float32(mask_value).astype(self.header.dtype)")
     (res.ok if ok else res.bad)("R3", f, call, "the mask value is cast to the file's sample type" if ok else
-                                "the mask value is not cast to header.dtype before use", key="acm:value")
+                                f"the mask value `{val_x}` is not cast to header.dtype before use", key="acm:value")
     cws = [c for c in cwrite_calls(f) if lp.in_body(c)]
     ok = len(cws) == 1 and norm(cws[0].args[0]) == lp.data and op.cfg.must_pass(op.cfg.node_for(lp.node), op.cfg.node_for(cws[0]), {op.cfg.node_for(call)})
     (res.ok if ok else res.bad)("R3", f, cws[0] if cws else f.node, "each block is written after, and only after, the kernel masked it in place" if ok else
                                 "the block written is not the block the kernel just masked", key="acm:order", construct="cwrite order")
     cr = prog.func(BASE, "Filterbank.clean_rfi")
-    src = norm(cr.node)
+    nfr = normal_form(cr)
+    same_range = "gulp=gulp, start=start, nsamps=nsamps, **plan_kwargs"
+    built = [e for e in nfr.effects if e.kind == "set" and e.target.startswith("$") and e.text() == canon(
+        "RFIMask(threshold, self.header, self.chan_stats.mean, self.chan_stats.var, self.chan_stats.skew, self.chan_stats.kurtosis, "
+        "self.chan_stats.maxima, self.chan_stats.minima)")]
+    M = built[0].target if len(built) == 1 else "?"
+    um, sm_, cm = nfr.calls(f"{M}.apply_mask"), nfr.calls(f"{M}.apply_method"), nfr.calls(f"{M}.apply_funcn")
+    median = f"np.median(self.chan_stats.mean[~{M}.chan_mask])"
+    rets = nfr.returns()
+
+    def written(e) -> bool:
+        import re as _re
+        m_ = _re.fullmatch(_re.escape(f"(self.apply_channel_mask({M}.chan_mask, ") + r"(?P<v>.+?), " +
+                           _re.escape(canon(f"f({same_range}, outfile_name=outfile_name)")[2:] + f", {M})"), e.text())
+        if m_ is None:
+            return False
+        v = m_.group("v")
+        return v == median if e.under("mask_value is None") or any(c.startswith("if cmp[Is]($v") for c in e.ctx) else (v.startswith("$v") or v == "mask_value")
+
     checks = [
-        ("statistics pass uses the same (gulp, start, nsamps)", "self.compute_stats(gulp=gulp, start=start, nsamps=nsamps, **plan_kwargs)" in src),
-        ("mask built from mean, var, skew, kurtosis, maxima, minima of this file",
-         "rfimask = RFIMask(threshold, self.header, self.chan_stats.mean, self.chan_stats.var, self.chan_stats.skew, self.chan_stats.kurtosis, "
-         "self.chan_stats.maxima, self.chan_stats.minima)" in src),
+        ("statistics pass uses the same (gulp, start, nsamps)", [e.text() for e in nfr.calls("self.compute_stats")] == [canon(f"self.compute_stats({same_range})")]),
+        ("mask built from mean, var, skew, kurtosis, maxima, minima of this file", len(built) == 1),
         ("user mask, then statistics mask, then custom mask are applied (each optional one only when given)",
-         "if freq_mask is not None: rfimask.apply_mask(freq_mask)" in src and "rfimask.apply_method(method)" in src and
-         "if custom_funcn is not None: rfimask.apply_funcn(custom_funcn)" in src and
-         src.find("rfimask.apply_mask(freq_mask)") < src.find("rfimask.apply_method(method)") < src.find("rfimask.apply_funcn(custom_funcn)")),
-        ("the file is written with the final chan_mask over the same (gulp, start, nsamps)",
-         "out_file = self.apply_channel_mask(rfimask.chan_mask, mask_value, outfile_name=outfile_name, gulp=gulp, start=start, nsamps=nsamps, **plan_kwargs)" in src),
-        ("default mask value = median of the unmasked channel means", "mask_value = np.median(self.chan_stats.mean[~rfimask.chan_mask])" in src),
-        ("the mask returned is the one that was applied", "return (out_file, rfimask)" in src),
-        ("unknown method raises before any work", "if method not in {'mad', 'iqrm'}:" in src),
+         len(um) == 1 and len(sm_) == 1 and len(cm) == 1 and um[0].text() == f"{M}.apply_mask(freq_mask)" and um[0].under("freq_mask is not None") and
+         sm_[0].text() == f"{M}.apply_method(method)" and set(sm_[0].ctx) == set(built[0].ctx) and cm[0].text() == f"{M}.apply_funcn(custom_funcn)" and
+         cm[0].under("custom_funcn is not None") and nfr.before(um[0], sm_[0]) and nfr.before(sm_[0], cm[0])),
+        ("the file is written with the final chan_mask over the same (gulp, start, nsamps)", bool(rets) and all(written(e) for e in rets) and
+         all(nfr.before(cm[0], e) for e in rets) if cm else False),
+        ("default mask value = median of the unmasked channel means", any(median in e.text() for e in rets)),
+        ("the mask returned is the one that was applied", bool(rets) and all(e.text().endswith(f", {M})") for e in rets)),
+        ("unknown method raises before any work", any(e.ctx == (" ".join(__import__("sa.normalform", fromlist=["cond"]).cond("method not in {'mad', 'iqrm'}")),)
+                                                    for e in nfr.raises())),
     ]
     for what, ok in checks:
         (res.ok if ok else res.bad)("R3", cr, cr.node, what if ok else f"clean_rfi no longer satisfies: {what}", construct=what, key=f"clean:{what[:40]}")
